@@ -328,6 +328,10 @@ def run(ctx, res):
     idd = C.run_impl(ctx.bins["c12"], pd, len(ld), shards=1)
     res.count("L1d_tilde", len(ld))
     for h, a, b in zip(homes, md, idd):
+        if a != b and "$" in h and "home_is_a_template" in known and b == toks_line(
+                [(t, (h + x[1:]) if (t == "" and x.startswith("~")) else x) for t, x in htoks]):
+            res.extra.setdefault("findings_no_longer_reproducing", []).append("home_is_a_template")
+            continue
         if a != b:
             violate(kind="correspondence", layer="L1d", input=h, model=a, impl=b, failing_input=False,
                     note="expand_home of the implementation differs from the model")
@@ -342,17 +346,23 @@ def run(ctx, res):
     # ------------------------------------------------------------ L1e glob, L1f do_expansion, L2
     work = tempfile.mkdtemp(prefix="c12_")
     try:
-        pops = [["a.txt", "b.txt", ".hid.txt", "c d.txt", "sub/x.txt", "sub/.h", "sub/y z", "zz"],
-                [".only"], [], ["*star", "q[1]", "A", "a", "B", "b", "é.txt", "sub/deep/f.txt"]]
+        pops = [["a.txt", "b.txt", ".hid.txt", "c d.txt", "sub/x.txt", "sub/.h", "sub/y z", "zz", ".bashrc", ".vimrc",
+                 ".hdir/in.txt", ".hdir/.hin", ".hdir/two words"],
+                [".only"], [], ["*star", "q[1]", "A", "a", "B", "b", "é.txt", "sub/deep/f.txt", ".dot", "sub/.s", "sub/t"]]
         pats = ["*", "*.txt", ".*", ".*.txt", "sub/*", "*/x.txt", "no*match", "a*", "*z", "sub/.*", "c*", "* ", "**", "*/*",
-                "[*", "q[1]*", "'*'", "\\*", "x*x", "*/*/*", "/nonexistent/*", "../*star*"]
+                "[*", "q[1]*", "'*'", "\\*", "x*x", "*/*/*", "/nonexistent/*", "../*star*",
+                # directory part starting with a dot / containing "/." against populations with hidden entries
+                "./*", "./*.txt", "./.*", ".*rc", "./sub/*", "../pop0/*", "../pop0/*.txt", "../pop0/sub/*", "../pop3/sub/*",
+                ".hdir/*", ".hdir/.*", "./.hdir/*", "*/.*", "./no*match", "../pop1/*", "./*/*", "sub/../*.txt"]
         le, emeta = [], []
-        for pi, pop in enumerate(pops):
+        for pi, pop in enumerate(pops):       # all populations first: patterns reach into sibling directories
             d = os.path.join(work, "pop%d" % pi)
             os.makedirs(d)
             for n in pop:
                 os.makedirs(os.path.dirname(os.path.join(d, n)), exist_ok=True)
                 open(os.path.join(d, n), "w").close()
+        for pi, pop in enumerate(pops):
+            d = os.path.join(work, "pop%d" % pi)
             raw_cases = [C.case("globraw", "D\x1d" + d, p) for p in pats]
             pr = C.write_cases("c12_raw.txt", raw_cases)
             raw = C.run_impl(ctx.bins["c12"], pr, len(raw_cases), shards=1)
@@ -390,25 +400,42 @@ def run(ctx, res):
             if tbl == "dx":
                 b = b.split("\t", 1)[1] if b.startswith("pid=") else b
                 a = a.split(" calls=")[0]
-            if a != b:
-                violate(kind="correspondence", layer="L1e", dir=d, input=toks_line(toks), model=a, impl=b,
-                        failing_input=False, note="expand_glob / do_expansion of the implementation differs from the model")
-                continue
+            differs = a != b
             if p is None or p in ("'*'", "\\*") or tbl is None:
+                if differs:
+                    violate(kind="correspondence", layer="L1e", dir=d, input=toks_line(toks), model=a, impl=b,
+                            failing_input=False, note="expand_glob / do_expansion of the implementation differs from the model")
                 continue
             # property oracle: Python's glob (sorted, hidden skipped unless the last component starts with a dot)
             cwd = os.getcwd()
             os.chdir(d)
             try:
-                pg = sorted(x for x in pyglob.glob(p) if os.path.basename(x.rstrip("/")) not in (".", ".."))
+                pg = [x for x in pyglob.glob(p) if os.path.basename(x.rstrip("/")) not in (".", "..")]
             finally:
                 os.chdir(cwd)
+            if p.startswith("./"):      # the glob crate yields paths without the leading ./
+                pg = [x[2:] if x.startswith("./") else x for x in pg]
+            pg = sorted(pg)
             if not pg:
                 pg = [p]
             exp = toks_line([toks[0]] + [retag(x) for x in pg] + toks[2:])
             res.nontrivial("e:%s:%s" % (os.path.basename(d), p))
+            if differs and (b == exp or "[" in p or "**" in p):
+                violate(kind="correspondence", layer="L1e", dir=d, input=toks_line(toks), model=a, impl=b,
+                        failing_input=False, note="expand_glob of the implementation differs from the model")
+                continue
             if b != exp and "[" not in p and "**" not in p:
-                violate(kind="oracle", layer="L1e", dir=d, input=p, expected=exp, observed=b, failing_input=True,
+                got_paths = [x for _, x in parse_toks(b)][1:-2]
+                extra = [x for x in got_paths if x not in pg]
+                hidden_dir = lambda x: any(c.startswith(".") and c not in (".", "..") for c in x.split("/")[:-1])
+                if a == b and extra and all(hidden_dir(x) for x in extra) and [x for x in got_paths if x in pg] == pg:
+                    # recorded: a * component of the pattern matched a hidden DIRECTORY (only the last component is filtered)
+                    known_or_violate("hidden_directory_component", True, kind="oracle", layer="L1e", dir=d, input=p,
+                                     expected=exp, observed=b, failing_input=True,
+                                     note="entries below a hidden directory are listed for a pattern whose directory part is a *")
+                    continue
+                violate(kind="oracle", layer="L1e", dir=d, directory_entries=sorted(pops[int(os.path.basename(d)[3:])]),
+                        input=p, expected=exp, observed=b, model=a, failing_input=True,
                         note="filename expansion is not the sorted list of matching non-hidden paths")
         # ------------------------------------------------------------ L2
         hp = os.path.join(ctx.helpers, "hp")
@@ -417,6 +444,9 @@ def run(ctx, res):
               ("x{a,{b,c}d,}y", ["xay", "xbdy", "xcdy", "xy"], None), ("{1..4}", ["1", "2", "3", "4"], None),
               ("{10..4..3}", ["10", "7", "4"], None), ("*.txt", ["a.txt", "b.txt", "c d.txt"], None),
               ("sub/*", ["sub/x.txt", "sub/y z"], None), ("no*match", ["no*match"], None), ("~", [d0], None),
+              ("./*.txt", ["a.txt", "b.txt", "c d.txt"], None), ("../pop0/sub/*", ["../pop0/sub/x.txt", "../pop0/sub/y z"], None),
+              (".hdir/*", [".hdir/in.txt", ".hdir/two words"], None), (".*rc", [".bashrc", ".vimrc"], None),
+              ("pre ./sub/* 'q*' post", ["pre", "sub/x.txt", "sub/y z", "q*", "post"], None),
               ("~/q", [d0 + "/q"], None), ("'{a,b}' \"*.txt\" '~'", ["{a,b}", "*.txt", "~"], None),
               ("k {a,b} *.txt {1..2} m", ["k", "a", "b", "a.txt", "b.txt", "c d.txt", "1", "2", "m"], None),
               ("a{1..3}b", ["a1b", "a2b", "a3b"], "range_affixes_dropped"),
